@@ -181,4 +181,45 @@ def err_ctx(ctx: Ctx) -> RuleResult:
     return r
 
 
-RULES = {"ERR-WRAP": err_wrap, "ERR-CHECK": err_check, "ERR-NOSWALLOW": err_noswallow, "ERR-CTX": err_ctx}
+def err_failstop(ctx: Ctx) -> RuleResult:
+    """Tasks created for async-thread nodes start lazily (at the next await): when the scheduler observes a failure before yielding,
+    it must cancel them on its way out, otherwise a node starts after the call has raised."""
+    from .sch import model
+
+    r = RuleResult("ERR-FAILSTOP")
+    m = model(ctx)
+    lazy = [info for info in m.dispatch.values() if info["kind"] == "async" and info.get("wrapped")]
+    if not lazy:
+        r.ob(True, {"lazily started tasks": 0})
+        return r
+    # is the loop enclosed in a try whose handler / finally cancels the tasks of the async in-flight set(s)?
+    async_sets = {name for name, k in m.F.items() if k == "async"}
+    protected = False
+    for n in iter_own_nodes(m.fn.node):
+        if isinstance(n, ast.Try) and any(m.loop_stmt is x for s_ in n.body for x in ast.walk(s_)):
+            blocks = [b for h in n.handlers for b in h.body] + list(n.finalbody)
+            for b in blocks:
+                for c in ast.walk(b):
+                    if isinstance(c, ast.Call) and isinstance(c.func, ast.Attribute) and c.func.attr == "cancel":
+                        protected = True
+    # can a failure be observed between the creation of a task and the next await?  (inline dispatch, or a non-awaited helper check)
+    window = False
+    for p in m.paths():
+        if not p.feasible:
+            continue
+        for e in p.events:
+            if e.kind == "DISPATCH" and e.data["kind"] == "inline":
+                window = True
+            if e.kind == "WAIT" and not e.data["needs_await"]:
+                window = True
+    r.ob(protected or not window, {"tasks created with": sorted({i["wrapped"] for i in lazy}), "failure observable before the next await": window,
+                                   "cancelled on exceptional exit": protected})
+    if window and not protected:
+        r.violate("scheduler: tasks created for async-thread nodes are not cancelled when a failure is observed", m.fn.loc(m.loop_stmt),
+                  "asyncio.ensure_future only schedules the coroutine; if a main-thread node raises (or a thread future's failure is observed) "
+                  "before the scheduler awaits again, the exception leaves the scheduler while the task is still pending: in an AsyncDAG the "
+                  "event loop then starts that node AFTER the call has raised", sorted(async_sets))
+    return r
+
+
+RULES = {"ERR-WRAP": err_wrap, "ERR-CHECK": err_check, "ERR-NOSWALLOW": err_noswallow, "ERR-CTX": err_ctx, "ERR-FAILSTOP": err_failstop}
